@@ -663,7 +663,7 @@ fn main() {
     }
     let mut rng = Rng::new(args.seed);
     let mut all = corpus();
-    let n = if args.thorough { 150 } else { 14 };
+    let n = if args.thorough { 120 } else { 14 };
     for i in 0..n { if i % 8 == 7 { all.push(gen_ext_history(&mut rng)); } else { all.push(gen_history(&mut rng)); } }
     // several child pairs, so that one process does not run everything (per-process hash seeds, global state)
     let per = if args.thorough { 20 } else { 11 };
